@@ -868,11 +868,72 @@ func integerSufficient(t *Term) *Term {
 		}
 		a := e.m.f[0].atom
 		if a.Op != "app" || a.Name != "toring" {
+			// any other residue atom A: toring(lift(A)) = A, so its canonical representative may stand for it
+			if isAtomTerm(a) && modulusOf(a.Sort) != nil {
+				sum = mkAdd(sum, mkScale(mkLift(a), c))
+				continue
+			}
 			return nil
 		}
 		sum = mkAdd(sum, mkScale(a.Args[0], c))
 	}
-	return mkEq(sum, mkInt64(0))
+	return mkEq(recombineDivMod(sum), mkInt64(0))
+}
+
+// recombineDivMod:  k*c*(x div k) + c*(x mod k)  is  c*x  (x an integer term, k a positive constant).  The window
+// decompositions of scalar bytes (b>>4, b&15) recombine syntactically instead of through the solver.
+func recombineDivMod(t *Term) *Term {
+	if t.Op != "poly" {
+		return t
+	}
+	p := t.P
+	type ent struct {
+		key string
+		c   *big.Int
+	}
+	divs := map[string]ent{} // key(x)+"/"+k -> coefficient of (x div k)
+	mods := map[string]ent{}
+	args := map[string]*Term{}
+	for k, e := range p.t {
+		if len(e.m.f) != 1 || e.m.f[0].exp.Cmp(big1) != 0 {
+			continue
+		}
+		a := e.m.f[0].atom
+		if (a.Op == "div" || a.Op == "mod") && a.Val != nil {
+			id := a.Args[0].Key() + "/" + a.Val.String()
+			args[id] = a
+			if a.Op == "div" {
+				divs[id] = ent{k, e.c}
+			} else {
+				mods[id] = ent{k, e.c}
+			}
+		}
+	}
+	res := p
+	changed := false
+	for id, d := range divs {
+		m, ok := mods[id]
+		if !ok {
+			continue
+		}
+		k := args[id].Val
+		if new(big.Int).Mul(m.c, k).Cmp(d.c) != 0 {
+			continue
+		}
+		// remove both terms, add c*x
+		np := newPoly(p.sort)
+		for kk, e := range res.t {
+			if kk != d.key && kk != m.key {
+				np.t[kk] = e
+			}
+		}
+		res = np.Add(polyOf(args[id].Args[0]).Scale(m.c))
+		changed = true
+	}
+	if !changed {
+		return t
+	}
+	return fromPoly(res)
 }
 
 func (e *Engine) addObligation(st *State, fr *Frame, kind, label string, goal *Term, text string) {
